@@ -7308,10 +7308,55 @@ let p_file = function
               let Ascii (b, b0, b1, b2, b3, b4, b5, b6) = a in
               if b
               then if b0
-                   then (match p_yaml (S (length ts2)) ts2 with
-                         | Some p0 ->
-                           let (y, ts4) = p0 in Some ((path, (Some y)), ts4)
-                         | None -> None)
+                   then if b1
+                        then (match p_yaml (S (length ts2)) ts2 with
+                              | Some p0 ->
+                                let (y, ts4) = p0 in
+                                Some ((path, (Some y)), ts4)
+                              | None -> None)
+                        else if b2
+                             then if b3
+                                  then (match p_yaml (S (length ts2)) ts2 with
+                                        | Some p0 ->
+                                          let (y, ts4) = p0 in
+                                          Some ((path, (Some y)), ts4)
+                                        | None -> None)
+                                  else if b4
+                                       then (match p_yaml (S (length ts2)) ts2 with
+                                             | Some p0 ->
+                                               let (y, ts4) = p0 in
+                                               Some ((path, (Some y)), ts4)
+                                             | None -> None)
+                                       else if b5
+                                            then if b6
+                                                 then (match p_yaml (S
+                                                               (length ts2))
+                                                               ts2 with
+                                                       | Some p0 ->
+                                                         let (y, ts4) = p0 in
+                                                         Some ((path, (Some
+                                                         y)), ts4)
+                                                       | None -> None)
+                                                 else (match p_yaml (S
+                                                               (length ts3))
+                                                               ts3 with
+                                                       | Some p0 ->
+                                                         let (y, ts4) = p0 in
+                                                         Some ((path, (Some
+                                                         y)), ts4)
+                                                       | None -> None)
+                                            else (match p_yaml (S
+                                                          (length ts2)) ts2 with
+                                                  | Some p0 ->
+                                                    let (y, ts4) = p0 in
+                                                    Some ((path, (Some y)),
+                                                    ts4)
+                                                  | None -> None)
+                             else (match p_yaml (S (length ts2)) ts2 with
+                                   | Some p0 ->
+                                     let (y, ts4) = p0 in
+                                     Some ((path, (Some y)), ts4)
+                                   | None -> None)
                    else if b1
                         then (match p_yaml (S (length ts2)) ts2 with
                               | Some p0 ->
